@@ -85,7 +85,7 @@ def spec_run(ops):
                 if a.conc() and not a.frozen: out.append("panic")
                 elif k in a.alts or a.unknown: out.append(None)
                 else: out.append(show_vals(a.vals(k)))
-            elif o in ("all", "call"):
+            elif o in ("all", "call", "callin"):
                 a = st[t[1]]
                 if a.conc() and not a.frozen: out.append("panic")
                 elif a.alts or a.unknown: out.append(None)
@@ -243,6 +243,18 @@ def forced_scenarios():
     return out
 
 
+def pool_iter_scenarios():
+    """the parallel whole-index iteration (`c_iter_all`) of a frozen concurrent index holding many keys (every DashMap shard is hit), run inside rayon pools whose
+    size does and does not divide the process-wide shard count: every entry exactly once, whatever the pool"""
+    out = []
+    for ty in ["crel", "cfull", "clat"]:
+        for n in (1, 2, 3, 5, 6, 7, 12, 16):
+            p = f"pi{ty}{n}"
+            ops = [f"idx mk {p} {ty}"] + [f"idx ins {p} {k * 13 + 1} {k % 5}" for k in range(96)] + [f"idx freeze {p}", f"idx callin {p} {n}", f"idx all {p}"]
+            out.append((ty, ops))
+    return out
+
+
 def sparse_scenarios():
     """an index holding ONE key (every key of a range in turn, so every shard of the real DashMap is hit), alone and as one side of the
     combined view: `is_empty` must answer false (generated code skips the whole rule on true)"""
@@ -280,6 +292,7 @@ def check(tier, replay=None):
             scen.append(("corpus:" + fn, c["ops"]))
         scen += forced_scenarios()
         scen += sparse_scenarios()
+        scen += pool_iter_scenarios()
         n = 400 if (tier == "quick" and proof.ok) else 4000
         for i in range(n):
             scen.append(gen_scenario(rng, i, tier))
